@@ -19,10 +19,12 @@ type chainDriver struct {
 	forkID  uint64
 	opts    chaingen.Opts
 	bumpDen int
+	// versions is the ascending schedule blocks pick their protocol version from
+	versions []string
 }
 
 func newChainDriver(c *sim.Ctx) *chainDriver {
-	d := &chainDriver{c: c, g: chaingen.New()}
+	d := &chainDriver{c: c, g: chaingen.New(), versions: chaingen.Versions}
 	d.verIdx = c.T.Draw("version0", len(chaingen.Versions))
 	d.bumpDen = 3 + c.T.Draw("version.bump", 6)
 	d.opts = chaingen.Opts{MaxTxs: 1 + c.T.Draw("max.txs", 5), MaxDiff: 2 + c.T.Draw("max.diff", 8), MaxEvents: c.T.Draw("max.events", 4)}
@@ -33,32 +35,32 @@ func newChainDriver(c *sim.Ctx) *chainDriver {
 func (d *chainDriver) next(parent *chaingen.Block) *chaingen.Block {
 	// versions never decrease along a chain
 	if parent != nil {
-		for i, v := range chaingen.Versions {
+		for i, v := range d.versions {
 			if v == parent.Version && i > d.verIdx {
 				d.verIdx = i
 			}
 		}
 	}
-	if d.verIdx < len(chaingen.Versions)-1 && d.c.T.Draw("version.up", d.bumpDen) == d.bumpDen-1 {
+	if d.verIdx < len(d.versions)-1 && d.c.T.Draw("version.up", d.bumpDen) == d.bumpDen-1 {
 		// The commitment formula changes at 0.14.0 only for states whose class trie is empty. A chain
 		// that crosses that boundary with an empty class trie has an ill-defined "old root" (the
 		// parent's root was computed with the old formula); real networks crossed it with classes
 		// declared. The generator therefore crosses only when a Sierra class exists (DESIGN.md §6).
-		crossing := chaingen.Versions[d.verIdx] < "0.14.0" && chaingen.Versions[d.verIdx+1] >= "0.14.0"
+		crossing := d.versions[d.verIdx] < "0.14.0" && d.versions[d.verIdx+1] >= "0.14.0"
 		if !crossing || (parent != nil && len(parent.Post.ClassLeaves()) > 0) {
 			d.verIdx++
 		}
 	}
 	o := d.opts
-	o.Version = chaingen.Versions[d.verIdx]
+	o.Version = d.versions[d.verIdx]
 	o.Salt = d.forkID
 	return d.g.Next(d.c.T, parent, o)
 }
 
 func (d *chainDriver) newFork() { d.forkID++ }
 
-func verIndex(v string) int {
-	for i, x := range chaingen.Versions {
+func (d *chainDriver) verIndex(v string) int {
+	for i, x := range d.versions {
 		if x == v {
 			return i
 		}
@@ -66,13 +68,20 @@ func verIndex(v string) int {
 	return 0
 }
 
+// withLegacy extends the schedule by the versions of the pre-0.13.2 block hash family (only for
+// harnesses that know which fields that family commits) and redraws the starting version.
+func (d *chainDriver) withLegacy() {
+	d.versions = chaingen.AllVersions
+	d.verIdx = d.c.T.Draw("version0.legacy", len(d.versions))
+}
+
 // rewindVersion makes the version schedule consistent with a fork point.
 func (d *chainDriver) rewindTo(parent *chaingen.Block) {
 	if parent == nil {
-		d.verIdx = d.c.T.Draw("version0", len(chaingen.Versions))
+		d.verIdx = d.c.T.Draw("version0", len(d.versions))
 		return
 	}
-	d.verIdx = verIndex(parent.Version)
+	d.verIdx = d.verIndex(parent.Version)
 }
 
 func l1HeadFor(b *chaingen.Block) *core.L1Head {
